@@ -9,4 +9,5 @@ pub mod runner;
 pub mod refnum;
 pub mod cbor;
 pub mod gen;
+pub mod cddl;
 pub mod props;
